@@ -321,3 +321,335 @@ func callersBind(p *core.Program, rel string, fd *ast.FuncDecl) bool {
 	}
 	return calls > 0 && calls == bound
 }
+
+// loopAliasRule: inside a loop, the address of a variable that is declared OUTSIDE the loop and
+// assigned INSIDE it is one address for all iterations: whatever keeps it (a reflect.Value made
+// from it, a slot of a slice) sees the value of the last iteration. The per-iteration
+// declaration (`var v T` in the body) is what makes `&v` a fresh cell each time.
+func loopAliasRule(p *core.Program, r *core.Report, rule string, rels ...string) {
+	n := 0
+	for _, rel := range rels {
+		pk := p.Pkg(rel)
+		if pk == nil {
+			continue
+		}
+		info := pk.TypesInfo
+		for _, fd := range p.FuncDecls(rel) {
+			if fd.Body == nil {
+				continue
+			}
+			fname := core.FuncName(rel, fd)
+			k := 0
+			var loops []ast.Node
+			var visit func(n ast.Node) bool
+			visit = func(nd ast.Node) bool {
+				switch x := nd.(type) {
+				case *ast.ForStmt, *ast.RangeStmt:
+					loops = append(loops, x)
+					var body *ast.BlockStmt
+					if f, ok := x.(*ast.ForStmt); ok {
+						body = f.Body
+					} else {
+						body = x.(*ast.RangeStmt).Body
+					}
+					ast.Inspect(body, visit)
+					loops = loops[:len(loops)-1]
+					return false
+				case *ast.UnaryExpr:
+					if x.Op != token.AND || len(loops) == 0 {
+						return true
+					}
+					id, ok := eng.Unparen(x.X).(*ast.Ident)
+					if !ok {
+						return true
+					}
+					v, ok := info.Uses[id].(*types.Var)
+					if !ok || v.Pkg() == nil || v.Parent() == v.Pkg().Scope() {
+						return true
+					}
+					loop := loops[len(loops)-1]
+					if v.Pos() >= loop.Pos() && v.Pos() < loop.End() {
+						return true // declared in this loop (its header or body): fresh per iteration
+					}
+					// assigned inside the loop?
+					assigned := false
+					ast.Inspect(loop, func(m ast.Node) bool {
+						if as, ok := m.(*ast.AssignStmt); ok {
+							for _, l := range as.Lhs {
+								if lid, ok := eng.Unparen(l).(*ast.Ident); ok && info.Uses[lid] == types.Object(v) {
+									assigned = true
+								}
+							}
+						}
+						return true
+					})
+					if !assigned {
+						return true
+					}
+					k++
+					n++
+					r.Bad(rule, fmt.Sprintf("%s/address of `%s` taken in a loop#%d", fname, id.Name, k), p.Pos(x.Pos()),
+						"`&"+id.Name+"` is taken inside a loop, but `"+id.Name+"` is declared outside it and assigned in every iteration: all iterations share one cell, so a value kept through the address (an addressable reflect.Value for a nil argument, a slot of the argument vector) shows the LAST assigned value — `F(a, nil)` calls F(a, a)")
+				}
+				return true
+			}
+			ast.Inspect(fd.Body, visit)
+		}
+	}
+	r.OK(rule, "no loop keeps the address of a variable shared by its iterations ("+strings.Join(rels, ", ")+")", "", fmt.Sprintf("%d offending site(s)", n))
+}
+
+// stackFieldBalanceRule: a slice-typed field used as a stack by one package (the checker's stack
+// of collection types, which gives `#` its type) is left by every function at the depth it was
+// entered with, on every path: pushes (`f = append(f, x)`), truncations (`f = f[:n]`) and
+// deferred truncations (whose argument is evaluated when the defer statement runs) are
+// executed on an affine depth; calls of the package's own functions are assumed balanced (each is
+// checked by this rule). An unbalanced function leaves an inner collection on the stack: a
+// later `#` of the OUTER closure is typed with the inner element type.
+func stackFieldBalanceRule(p *core.Program, r *core.Report, rule, rel, typeName, field string) {
+	pk := p.Pkg(rel)
+	if pk == nil {
+		r.Unk(rule, rel+"."+typeName+"."+field+"/stack discipline", "", "package not found")
+		return
+	}
+	info := pk.TypesInfo
+	isField := func(e ast.Expr) bool {
+		sel, ok := eng.Unparen(e).(*ast.SelectorExpr)
+		if !ok || sel.Sel.Name != field {
+			return false
+		}
+		s := info.Selections[sel]
+		if s == nil || s.Kind() != types.FieldVal {
+			return false
+		}
+		t := s.Recv()
+		if pt, ok := t.(*types.Pointer); ok {
+			t = pt.Elem()
+		}
+		n, ok := t.(*types.Named)
+		return ok && n.Obj().Name() == typeName
+	}
+	nFuncs := 0
+	for _, fd := range p.FuncDecls(rel) {
+		if fd.Body == nil {
+			continue
+		}
+		touches := false
+		ast.Inspect(fd.Body, func(n ast.Node) bool {
+			if as, ok := n.(*ast.AssignStmt); ok {
+				for _, l := range as.Lhs {
+					if isField(l) {
+						touches = true
+					}
+				}
+			}
+			return true
+		})
+		if !touches {
+			continue
+		}
+		nFuncs++
+		fname := core.FuncName(rel, fd)
+		w := &eng.Walker{Info: info, MaxPaths: 20000}
+		okAll, why := true, ""
+		nPaths := 0
+		for _, atoms := range flattenPaths(w.Func(fd.Body), 60000) {
+			depth := eng.AffSym("D0")
+			env := &eng.AffEnv{Info: info, Vars: map[types.Object]eng.Aff{}}
+			env.Val = func(x ast.Expr) (eng.Aff, bool) {
+				if c, ok := x.(*ast.CallExpr); ok && isBuiltinCall(info, c, "len") && len(c.Args) == 1 && isField(c.Args[0]) {
+					return depth, true
+				}
+				return eng.Aff{}, false
+			}
+			type deferred struct {
+				abs *eng.Aff // truncate to this value
+				rel int64    // or: change depth by this much
+			}
+			var defers []deferred
+			panics, understood := false, true
+			apply := func(as *ast.AssignStmt) {
+				if len(as.Lhs) != 1 || len(as.Rhs) != 1 {
+					return
+				}
+				if isField(as.Lhs[0]) {
+					switch x := eng.Unparen(as.Rhs[0]).(type) {
+					case *ast.CallExpr:
+						if isBuiltinCall(info, x, "append") && len(x.Args) >= 1 && isField(x.Args[0]) && !x.Ellipsis.IsValid() {
+							depth = depth.Add(eng.AffConst(int64(len(x.Args)-1)), 1)
+							return
+						}
+					case *ast.SliceExpr:
+						if isField(x.X) && x.Low == nil && x.High != nil {
+							if a, ok := env.Eval(x.High); ok {
+								depth = a
+								return
+							}
+						}
+					}
+					understood = false
+					return
+				}
+				if id, ok := as.Lhs[0].(*ast.Ident); ok {
+					if a, ok := env.Eval(as.Rhs[0]); ok {
+						if _, isCall := eng.Unparen(as.Rhs[0]).(*ast.CallExpr); !isCall || len(a.T) > 0 || a.IsConst() {
+							env.Vars[objOf(info, id)] = a
+						}
+					}
+				}
+			}
+			for _, a := range atoms {
+				switch a.Kind {
+				case "assign":
+					apply(a.Node.(*ast.AssignStmt))
+				case "panic":
+					panics = true
+				case "defer":
+					ds := a.Node.(*ast.DeferStmt)
+					fl, ok := ds.Call.Fun.(*ast.FuncLit)
+					if !ok {
+						continue
+					}
+					// parameters hold the values of the arguments AT THE DEFER STATEMENT
+					sub := &eng.AffEnv{Info: info, Vars: map[types.Object]eng.Aff{}, Val: nil}
+					for k, v := range env.Vars {
+						sub.Vars[k] = v
+					}
+					i := 0
+					if fl.Type.Params != nil {
+						for _, f := range fl.Type.Params.List {
+							for _, nm := range f.Names {
+								if i < len(ds.Call.Args) {
+									if av, ok := env.Eval(ds.Call.Args[i]); ok {
+										sub.Vars[info.Defs[nm]] = av
+									}
+								}
+								i++
+							}
+						}
+					}
+					ast.Inspect(fl.Body, func(n ast.Node) bool {
+						as, ok := n.(*ast.AssignStmt)
+						if !ok || len(as.Lhs) != 1 || len(as.Rhs) != 1 || !isField(as.Lhs[0]) {
+							return true
+						}
+						if sl, ok := eng.Unparen(as.Rhs[0]).(*ast.SliceExpr); ok && isField(sl.X) && sl.Low == nil && sl.High != nil {
+							// relative to the depth at exit, or an absolute captured value?
+							relEnv := &eng.AffEnv{Info: info, Vars: sub.Vars}
+							relEnv.Val = func(x ast.Expr) (eng.Aff, bool) {
+								if c, ok := x.(*ast.CallExpr); ok && isBuiltinCall(info, c, "len") && len(c.Args) == 1 && isField(c.Args[0]) {
+									return eng.AffSym("EXIT"), true
+								}
+								return eng.Aff{}, false
+							}
+							if av, ok := relEnv.Eval(sl.High); ok {
+								if av.T["EXIT"] == 1 && len(av.T) == 1 {
+									defers = append(defers, deferred{rel: av.C})
+								} else if av.T["EXIT"] == 0 {
+									v := av
+									defers = append(defers, deferred{abs: &v})
+								} else {
+									understood = false
+								}
+								return true
+							}
+						}
+						understood = false
+						return true
+					})
+				}
+			}
+			if panics {
+				continue
+			}
+			nPaths++
+			for i := len(defers) - 1; i >= 0; i-- {
+				if defers[i].abs != nil {
+					depth = *defers[i].abs
+				} else {
+					depth = depth.Add(eng.AffConst(defers[i].rel), 1)
+				}
+			}
+			if !understood {
+				okAll, why = false, "an assignment of the stack field is neither a push nor a truncation this analysis can evaluate"
+			} else if !depth.Equal(eng.AffSym("D0")) {
+				okAll, why = false, "a path leaves the function with depth "+depth.String()+" (D0 = depth at entry): the stack is not restored"
+			}
+		}
+		r.Check(okAll, rule, fname+"/"+field+" is restored on every path", p.Pos(fd.Pos()), fmt.Sprintf("%d completing path(s), each leaves the depth it found", nPaths),
+			why+" — the pointer accessor `#` of an enclosing closure is then typed with the element type of an inner collection, and a type-directed rewrite or instruction selection is applied to a value of another type")
+	}
+	if nFuncs == 0 {
+		r.Unk(rule, rel+"."+typeName+"."+field+"/stack discipline", "", "no function assigns the field")
+	}
+}
+
+// sharedRecursionStateRule: a recursive function that receives a map or slice, writes it, and
+// hands the same object on to its recursive calls shares that state between SIBLING calls: what
+// the first sibling records is seen by the second. For a table built per struct type (the
+// fields an embedded struct contributes) the result then depends on traversal history — a type
+// embedded twice contributes nothing the second time, so an ambiguity goes unnoticed. A guard
+// against cycles that un-marks on the way back (delete after the call) is not such sharing.
+func sharedRecursionStateRule(p *core.Program, r *core.Report, rule string, rels ...string) {
+	n := 0
+	for _, rel := range rels {
+		pk := p.Pkg(rel)
+		if pk == nil {
+			continue
+		}
+		info := pk.TypesInfo
+		for _, fd := range p.FuncDecls(rel) {
+			if fd.Body == nil || fd.Type.Params == nil {
+				continue
+			}
+			self := info.Defs[fd.Name]
+			var params []types.Object
+			for _, f := range fd.Type.Params.List {
+				for _, nm := range f.Names {
+					params = append(params, info.Defs[nm])
+				}
+			}
+			for pi, po := range params {
+				if po == nil {
+					continue
+				}
+				switch po.Type().Underlying().(type) {
+				case *types.Map, *types.Slice:
+				default:
+					continue
+				}
+				written, unmarked, passedOn := false, false, false
+				ast.Inspect(fd.Body, func(nd ast.Node) bool {
+					switch x := nd.(type) {
+					case *ast.AssignStmt:
+						for _, l := range x.Lhs {
+							if ix, ok := eng.Unparen(l).(*ast.IndexExpr); ok {
+								if id, ok := eng.Unparen(ix.X).(*ast.Ident); ok && info.Uses[id] == po {
+									written = true
+								}
+							}
+						}
+					case *ast.CallExpr:
+						if isBuiltinCall(info, x, "delete") && len(x.Args) == 2 {
+							if id, ok := eng.Unparen(x.Args[0]).(*ast.Ident); ok && info.Uses[id] == po {
+								unmarked = true
+							}
+						}
+						if eng.CalleeOf(info, x) == self && self != nil && pi < len(x.Args) {
+							if id, ok := eng.Unparen(x.Args[pi]).(*ast.Ident); ok && info.Uses[id] == po {
+								passedOn = true
+							}
+						}
+					}
+					return true
+				})
+				if written && passedOn {
+					n++
+					r.Check(unmarked, rule, core.FuncName(rel, fd)+"/parameter `"+po.Name()+"` is not state shared between sibling recursive calls", p.Pos(fd.Pos()), "marks are removed on the way back",
+						"the recursive function writes its parameter `"+po.Name()+"` and passes the same object to its recursive calls without ever removing what it wrote: the second of two sibling calls sees the first one's marks — a struct type embedded through two embedded structs is expanded once, its fields are not recognised as ambiguous, and the checker accepts a name the VM cannot resolve")
+				}
+			}
+		}
+	}
+	r.OK(rule, "recursive table builders share no written state between sibling calls ("+strings.Join(rels, ", ")+")", "", fmt.Sprintf("%d recursive function(s) with a written, passed-on parameter examined", n))
+}
